@@ -92,7 +92,12 @@ bool TcpRpc::Impl::send(const SessionToken &st, char ch)
 
 bool TcpRpc::Impl::endSession(const SessionToken &st)
 {
-    auto ct = session_to_client_.at(st);
+    //! the session may have been ended already (e.g. by a command node, then by 'exit')
+    auto iter = session_to_client_.find(st);
+    if (iter == session_to_client_.end())
+        return false;
+
+    auto ct = iter->second;
     if (ct.isNull())
         return false;
 
